@@ -155,8 +155,8 @@ func FamilyDyn(maxN int, sampleAbove int, seed int64, remote bool) []*Skeleton {
 		}
 		return J{"const": k}
 	}
-	var gen func(n int, assign []string, perm []int, hop, form string, rootKind string, remoteIdx int, entry string)
-	gen = func(n int, assign []string, perm []int, hop, form string, rootKind string, remoteIdx int, entry string) {
+	var gen func(n int, assign []string, perm []int, hop, form string, rootKind string, remoteIdx int, entry string, twice bool)
+	gen = func(n int, assign []string, perm []int, hop, form string, rootKind string, remoteIdx int, entry string, twice bool) {
 		// resource i has id "http://x/r<i>"; chain: root -> perm[0] -> perm[1] ... -> last.
 		// entry "interior": a resource is entered at #/$defs/entry, its root is never evaluated.
 		id := func(i int) string { return fmt.Sprintf("http://x/r%d", i) }
@@ -212,6 +212,12 @@ func FamilyDyn(maxN int, sampleAbove int, seed int64, remote bool) []*Skeleton {
 		}
 		defs["t"] = marker(rootKind, 100)
 		root := merge(J{"$id": "http://x/root", "$defs": defs}, hopTo(target(perm[0])))
+		if twice && len(perm) > 1 {
+			// the resource that holds the $dynamicRef is reached twice within one Validate call:
+			// first directly from the root (a shorter dynamic scope, and - with a loader - before the
+			// other resources are loaded), then through the whole chain
+			root = J{"$id": "http://x/root", "$defs": defs, "allOf": A{J{"$ref": target(perm[len(perm)-1])}, hopTo(target(perm[0]))}}
+		}
 		if usesDecoy {
 			if remote {
 				universe[decoyID] = js(decoy)
@@ -222,6 +228,9 @@ func FamilyDyn(maxN int, sampleAbove int, seed int64, remote bool) []*Skeleton {
 		name := fmt.Sprintf("n%d.%s.root-%s.perm%v.%s.%s", n, strings.Join(assign, "-"), rootKind, perm, hop, form)
 		if entry != "root" {
 			name += "." + entry
+		}
+		if twice {
+			name += ".twice"
 		}
 		if remote {
 			name += fmt.Sprintf(".remote%d", remoteIdx)
@@ -263,7 +272,10 @@ func FamilyDyn(maxN int, sampleAbove int, seed int64, remote bool) []*Skeleton {
 								if en == "interior" && hop == "dynref" {
 									continue // a $dynamicRef with a JSON Pointer fragment is a plain reference: covered by "ref"
 								}
-								gen(n, as, pm, hop, form, rk, ri, en)
+								gen(n, as, pm, hop, form, rk, ri, en, false)
+								if n >= 2 && en == "root" && (hop == "ref" || hop == "allOf") {
+									gen(n, as, pm, hop, form, rk, ri, en, true)
+								}
 							}
 						}
 					}
@@ -346,6 +358,12 @@ func FamilyRef(thorough bool, seed int64) []*Skeleton {
 		mk("local-missing-anchor", root, J{"$defs": J{"t": J{"$anchor": "top", "const": 1}}}, map[string]string{"a": "#nope"}, nil, false)
 		mk("local-missing-pointer", root, J{"$defs": J{"t": J{"const": 1}}}, map[string]string{"a": "#/$defs/zz"}, nil, false)
 		mk("local-absent-keyword", root, J{"$defs": J{"t": J{"const": 1}}}, map[string]string{"a": "#/not", "b": "#/$defs/t/items", "c": "#/additionalProperties"}, nil, false)
+		// array indices are "0" or a digit 1-9 followed by digits (RFC 6901 section 4): anything else designates nothing
+		arr2 := J{"allOf": A{J{"const": 1}, J{"const": 2}}}
+		mk("local-array-index", root, arr2, map[string]string{"a": "#/allOf/1", "b": "#/allOf/0"}, nil, false)
+		for i, bad := range []string{"+1", "-0", "+0", "01", "1_", "0x1", " 1", "2", "18446744073709551617", "36893488147419103232", "-"} {
+			mk(fmt.Sprintf("local-bad-array-index-%d", i), root, arr2, map[string]string{"a": "#/allOf/" + bad}, nil, false)
+		}
 		mk("local-nonschema-pointer", root, J{"$defs": J{"t": J{"const": 1}}}, map[string]string{"a": "#/$defs/t/const"}, nil, false)
 		if !absolute || strings.HasPrefix(root.id, "urn:") {
 			// relative references need a hierarchical absolute base (under a urn: base
@@ -405,6 +423,9 @@ func FamilyRef(thorough bool, seed int64) []*Skeleton {
 		u3 := map[string]string{rel("alias.json"): `{"$id":"http://canon/c.json","$anchor":"ca","const":50,"$defs":{"s":{"$ref":"#ca"}}}`}
 		mk("remote-alias", root, J{}, map[string]string{"byretrieval": "alias.json", "s": "alias.json#/$defs/s", "anch": "alias.json#ca"}, u3, false)
 		mk("remote-alias-canonical", root, J{}, map[string]string{"first": "alias.json", "canon": "http://canon/c.json#ca"}, u3, false)
+		// ... and a *relative* $id: the canonical URI is the $id resolved against the retrieval URI
+		u3r := map[string]string{rel("alias2.json"): `{"$id":"canon2.json","$anchor":"ca","const":51,"$defs":{"s":{"$ref":"#ca"}}}`}
+		mk("remote-alias-relative-id", root, J{}, map[string]string{"first": "alias2.json", "canon": "canon2.json#ca", "canonroot": "./canon2.json"}, u3r, false)
 		// cycles and diamonds with pointer and anchor fragments
 		cyc := func(frag string) map[string]string {
 			return map[string]string{
@@ -455,7 +476,7 @@ func sortedKeysS(m map[string]string) []string {
 // FamilyPtr: "#"+percent-encoded JSON Pointer of every subschema location of a maximal
 // document, resolved end to end through Resolve and validated (C17-K3).
 func FamilyPtr(draft int) []*Skeleton {
-	keys := []string{"", "/", "~", "~0", "~1", "%", " ", "é", "0", "-", "a/b", "a", "01", "+1", "%25", "a b"}
+	keys := []string{"", "/", "~", "~0", "~1", "%", " ", "é", "0", "-", "a/b", "a", "01", "+1", "%25", "a b", "%41", "A", "a+b"}
 	esc := func(k string) string {
 		return strings.ReplaceAll(strings.ReplaceAll(k, "~", "~0"), "/", "~1")
 	}
@@ -498,7 +519,7 @@ func FamilyPtr(draft int) []*Skeleton {
 	for _, kw := range maps {
 		mm := J{}
 		for _, k := range keys {
-			if kw == "patternProperties" && (k == "%" || k == "+1" || k == "%25") {
+			if kw == "patternProperties" && (k == "%" || k == "+1" || k == "%25" || k == "%41" || k == "a+b") {
 				continue // not valid regular expressions / irrelevant
 			}
 			mm[k] = mark()
